@@ -279,6 +279,26 @@ impl Storage {
         let mut min_block_number = None;
         let mut batch = self.batch();
         let key_prefix = Key::Meta(FILTER_SCRIPTS_KEY).into_vec();
+        // The scripts which start from the genesis block after this command is applied.
+        let genesis_scripts: HashSet<(Script, ScriptType)> = {
+            let stored_scripts = match command {
+                SetScriptsCommand::Partial => self.get_filter_scripts(),
+                SetScriptsCommand::All | SetScriptsCommand::Delete => Vec::new(),
+            };
+            let mut block_numbers: HashMap<(Script, ScriptType), BlockNumber> = HashMap::new();
+            for ss in stored_scripts.iter().chain(scripts.iter()) {
+                let script_type = match ss.script_type {
+                    ScriptType::Lock => ScriptType::Lock,
+                    ScriptType::Type => ScriptType::Type,
+                };
+                block_numbers.insert((ss.script.clone(), script_type), ss.block_number);
+            }
+            block_numbers
+                .into_iter()
+                .filter(|(_, block_number)| *block_number == 0)
+                .map(|(script, _)| script)
+                .collect()
+        };
 
         match command {
             SetScriptsCommand::All => {
@@ -373,17 +393,24 @@ impl Storage {
             }
         }
 
-        batch.commit().expect("batch commit should be ok");
-
+        // The scripts, the min filtered block number and the matched blocks have to be updated
+        // atomically: if the process exits after only the scripts are updated, the blocks between
+        // the new min filtered block number and the old one would be skipped silently.
         if let Some(min_number) = min_block_number {
-            self.update_min_filtered_block_number(min_number);
+            batch
+                .put(
+                    Key::Meta(MIN_FILTERED_BLOCK_NUMBER).into_vec(),
+                    min_number.to_le_bytes(),
+                )
+                .expect("batch put should be ok");
         }
-        self.clear_matched_blocks();
-
+        self.clear_matched_blocks(&mut batch);
+        // The genesis block is never downloaded, so it has to be filtered in the same batch.
         if should_filter_genesis_block {
             let block = self.get_genesis_block();
-            self.filter_block(block);
+            self.filter_block_into_batch(&mut batch, block, &genesis_scripts);
         }
+        batch.commit().expect("batch commit should be ok");
     }
 
     // get scripts hash that should be filtered below the given block number
@@ -479,10 +506,9 @@ impl Storage {
         self.db.delete(&key).expect("delete matched blocks");
     }
 
-    fn clear_matched_blocks(&self) {
+    fn clear_matched_blocks(&self, batch: &mut Batch) {
         let key_prefix = Key::Meta(MATCHED_FILTER_BLOCKS_KEY).into_vec();
         let mode = IteratorMode::From(key_prefix.as_ref(), Direction::Forward);
-        let mut batch = self.batch();
         for (key, _) in self
             .db
             .iterator(mode)
@@ -490,7 +516,6 @@ impl Storage {
         {
             batch.delete(key).expect("batch delete should be ok");
         }
-        batch.commit().expect("batch commit should be ok");
     }
 
     /// the matched blocks must not empty
@@ -699,8 +724,19 @@ impl Storage {
             .filter(|ss| ss.block_number <= block_number)
             .map(|ss| (ss.script, ss.script_type))
             .collect();
-        let mut filter_matched = false;
         let mut batch = self.batch();
+        self.filter_block_into_batch(&mut batch, block, &scripts);
+        batch.commit().expect("batch commit should be ok");
+    }
+
+    fn filter_block_into_batch(
+        &self,
+        batch: &mut Batch,
+        block: Block,
+        scripts: &HashSet<(Script, ScriptType)>,
+    ) {
+        let block_number: BlockNumber = block.header().raw().number().unpack();
+        let mut filter_matched = false;
         let mut txs: HashMap<Byte32, (u32, Transaction)> = HashMap::new();
         block
             .transactions()
@@ -887,7 +923,6 @@ impl Storage {
                 )
                 .expect("batch put should be ok");
         }
-        batch.commit().expect("batch commit should be ok");
     }
 
     /// Rollback filtered block data to specified block number
